@@ -269,6 +269,8 @@ pub struct Run {
     pub case_budget: std::sync::atomic::AtomicU64,
     pub evidence_path: Mutex<String>,
     /// cases the harness could not run (its own environment failed: kind "harness"), and the first reason
+    /// shrink iterations per failing shard (sub-checks whose cases take milliseconds of real time lower it)
+    pub shrink_iters: std::sync::atomic::AtomicU64,
     pub harness_skipped: std::sync::atomic::AtomicU64,
     pub harness_note: Mutex<Option<String>>,
 }
@@ -296,6 +298,7 @@ impl Run {
             findings: known::load(prop),
             case_budget: std::sync::atomic::AtomicU64::new(0),
             evidence_path: Mutex::new(String::new()),
+            shrink_iters: std::sync::atomic::AtomicU64::new(6000),
             harness_skipped: std::sync::atomic::AtomicU64::new(0),
             harness_note: Mutex::new(None),
         }
@@ -310,6 +313,13 @@ impl Run {
     pub fn extra(&self, k: &str, v: Value) {
         self.extra.lock().unwrap().insert(k.to_string(), v);
     }
+    /// run `f` (registrations of slow, session-level sub-checks) with a smaller shrink budget
+    pub fn slow<F: FnOnce()>(&self, f: F) {
+        let old = self.shrink_iters.swap(300, Ordering::Relaxed);
+        f();
+        self.shrink_iters.store(old, Ordering::Relaxed);
+    }
+
     pub fn has_violation(&self) -> bool {
         !self.violations.lock().unwrap().is_empty()
     }
@@ -468,7 +478,7 @@ impl Run {
                         cases: n as u32,
                         failure_persistence: None,
                         rng_seed: RngSeed::Fixed(derive_seed(self.seed, self.prop, sub, shard)),
-                        max_shrink_iters: 6000,
+                        max_shrink_iters: self.shrink_iters.load(Ordering::Relaxed) as u32,
                         max_shrink_time: 0,
                         max_global_rejects: 1 << 20,
                         max_local_rejects: 1 << 20,
